@@ -121,9 +121,112 @@ theorem C03_dup_harmless (s₀ : Nat → Option M) (progs : Nat → List (WOp M)
   intro c hq s k hs _ _ _ hp
   exact (C03_converges_partial s₀ progs opts sched hord).2 hq s hs hp
 
+/-! ### Include × read mask: what the consumer of `Collection.Pull` actually folds
+
+The forwarder (`fwdEv`) follows the event loop of `Pull`: `include` judges the STORED old / new values of the
+change (an absent value is never included; a change moving an item into / out of the included set becomes an ADD /
+REMOVE; a change of an item that stays excluded is dropped), only THEN the read mask is applied; seeds are the
+included stored items, masked.  `obsView` is the fold of what the consumer receives. -/
+
+omit [DecidableEq M] in
+/-- **The forwarder is the included, masked image — every stream.**  For ALL include functions, read masks, start
+contents and change streams linked to them (each change carries as `old` the value it replaces; non-strict: or
+already holds its `new` value): folding the forwarded changes over the forwarded seed gives
+`project mask (filter include (fold changes contents))`. -/
+theorem C03_forwarder_include_mask (incl : Option (Nat → M → Bool)) (mask : M → M) (strict : Bool)
+    (base : Nat → Option M) (evs : List (Event M)) (h : linkOK strict base evs) :
+    (evs.filterMap (fwdEv incl mask)).foldl applyEv (seedView incl mask base)
+      = fun i => (((evs.foldl applyEv base) i).filter (fun x => inclOpt incl i (some x))).map mask :=
+  fwd_fold incl mask strict evs base h
+
+/-- **Convergence of the observed view (include × mask), partial.**  Same runs as `C03_converges_partial` (every
+`ordered` schedule, churn, any consumer pace, lossy or backpressured stage): at every moment the view a live
+subscriber's consumer has folded from what it RECEIVED (seeds filtered by its include function and masked, every
+change through include-then-mask, dropped changes skipped) is the included, masked image of its raw view; the
+stream still owed to it is linked (each change's `old` is the value it will replace, so `include` judges the right
+values); hence at quiescence, stage drained, it is exactly `project mask (filter include store)` — what `List` with
+the same options returns. -/
+theorem C03_converges_observed (s₀ : Nat → Option M) (progs : Nat → List (WOp M)) (opts : Nat → SubOpts M)
+    (sched : List Act) (hord : ordered (initCfg s₀ progs opts) sched = true) :
+    let c : Cfg M := run (initCfg s₀ progs opts) sched
+    (∀ s, (c.subs s).live = true →
+      (c.subs s).obsView = seedView (c.subs s).incl (c.subs s).mask (c.subs s).rawView ∧
+      linkOK (c.subs s).lossy (c.subs s).rawView ((c.subs s).pending ++ inflight c s)) ∧
+    (c.quiescent = true → ∀ s, (c.subs s).live = true → (c.subs s).pending = [] →
+      (c.subs s).obsView = fun i =>
+        ((c.store i).filter (fun x => inclOpt (c.subs s).incl i (some x))).map (c.subs s).mask) := by
+  intro c
+  have h := (Inv.init true s₀ progs opts).run sched hord
+  refine ⟨fun s hs => ⟨h.obs rfl s hs, h.link rfl s hs⟩, ?_⟩
+  intro hq s hs hp
+  have hv := h.view rfl s hs
+  have hpubs : (run (initCfg s₀ progs opts) sched).pubs = [] := List.isEmpty_iff.mp hq
+  unfold inflight at hv
+  rw [hpubs, hp] at hv
+  simp only [List.flatMap_nil, List.append_nil, List.foldl_nil] at hv
+  rw [h.obs rfl s hs, hv]
+  rfl
+
+/-- **PullID.**  Same runs: for a live subscriber whose item stream has not ended (no REMOVE of the item received:
+neither deleted nor moved out of the included set), the last value delivered on `PullID(id)`'s stream — the item's
+seed, then the new value of every change of that id — is what the folded view holds for the id; at quiescence,
+stage drained, it is the included, masked stored item (and the stream is empty iff there is none). -/
+theorem C03_pullid_converges (s₀ : Nat → Option M) (progs : Nat → List (WOp M)) (opts : Nat → SubOpts M)
+    (sched : List Act) (hord : ordered (initCfg s₀ progs opts) sched = true) (id : Nat) :
+    let c : Cfg M := run (initCfg s₀ progs opts) sched
+    ∀ s, (c.subs s).live = true → (c.subs s).pullIDEnded id = false →
+      ((c.subs s).pullID id).getLast? = (c.subs s).obsView id ∧
+      (c.quiescent = true → (c.subs s).pending = [] →
+        ((c.subs s).pullID id).getLast? =
+          ((c.store id).filter (fun x => inclOpt (c.subs s).incl id (some x))).map (c.subs s).mask) := by
+  intro c s hs hend
+  refine ⟨pullID_last _ id hend, ?_⟩
+  intro hq hp
+  rw [pullID_last _ id hend, (C03_converges_observed s₀ progs opts sched hord).2 hq s hs hp]
+
+/-- **The last event is the final value.**  Same runs, at quiescence, stage drained: for every id the consumer has
+received a change of, the LAST such change carries exactly what the store holds for that id (`none`: the item is gone)
+— for a `Value` (the single id 0): the last event delivered is its final value; through the forwarder the consumer sees
+it under its read mask. -/
+theorem C03_last_event_final (s₀ : Nat → Option M) (progs : Nat → List (WOp M)) (opts : Nat → SubOpts M)
+    (sched : List Act) (hord : ordered (initCfg s₀ progs opts) sched = true) :
+    let c : Cfg M := run (initCfg s₀ progs opts) sched
+    c.quiescent = true → ∀ s, (c.subs s).live = true → (c.subs s).pending = [] →
+      ∀ i e, ((c.subs s).evs.filter (fun x => x.id == i)).getLast? = some e → e.new = c.store i := by
+  intro c hq s hs hp i e he
+  have h := (Inv.init true s₀ progs opts).run sched hord
+  have hv := h.view rfl s hs
+  have hpubs : (run (initCfg s₀ progs opts) sched).pubs = [] := List.isEmpty_iff.mp hq
+  unfold inflight at hv
+  rw [hpubs, hp] at hv
+  simp only [List.flatMap_nil, List.append_nil, List.foldl_nil] at hv
+  have hl := foldl_applyEv_last (c.subs s).evs i (c.subs s).base
+  rw [he] at hl
+  simp only [] at hl
+  rw [← hl]
+  exact congrFun hv i
+
+omit [DecidableEq M] in
+/-- **The lossy stage of a `Value` is `DropExcess`.**  On a stream of one id without removals (a `Value`: single id,
+no Delete) the merge stage holds at most ONE pending change and receiving a change replaces it by the newest value:
+exactly `minibus.DropExcess` ("when the consumer receives, it will always get the most recent message"). -/
+theorem C03_value_stage_is_drop_excess (P : List (Event M)) (e : Event M)
+    (hid : ∀ a, a ∈ P → a.id = e.id) (hlen : P.length ≤ 1) (hnew : e.new.isSome = true) :
+    ∃ e', mergeInto P e = [e'] ∧ e'.id = e.id ∧ e'.new = e.new := by
+  match P, hlen with
+  | [], _ => exact ⟨e, rfl, rfl, rfl⟩
+  | [a], _ =>
+    have ha : a.id = e.id := hid a List.mem_cons_self
+    have hnone : e.new.isNone = false := by
+      cases hn : e.new with
+      | none => simp [hn] at hnew
+      | some x => rfl
+    refine ⟨{ e with isAdd := a.isAdd, old := a.old }, ?_, rfl, rfl⟩
+    simp [mergeInto, ha, hnone]
+
 /-! ### Witnesses on integers -/
 
-def plain (lossy : Bool) : SubOpts Int := ⟨false, lossy, id⟩
+def plain (lossy : Bool) : SubOpts Int := ⟨false, lossy, id, none⟩
 
 /-- writer 0 sets id 0 to 1, writer 1 sets id 0 to 2 -/
 def twoWriters : Nat → List (WOp Int) := fun t =>
@@ -186,7 +289,7 @@ def orderedSched : List Act :=
   [.commit 0, .sub 0, .commit 1, .snap 0, .deliver 0, .recv 0, .snap 0, .sub 1, .deliver 0, .recv 0,
    .deliver 0, .recv 1]
 
-def orderedOpts : Nat → SubOpts Int := fun s => if s = 1 then ⟨true, false, id⟩ else plain false
+def orderedOpts : Nat → SubOpts Int := fun s => if s = 1 then ⟨true, false, id, none⟩ else plain false
 
 def orderedRun : Cfg Int := run (initCfg (fun _ => none) twoWriters orderedOpts) orderedSched
 
@@ -197,6 +300,23 @@ example :
     orderedRun.quiescent = true ∧ orderedRun.store 0 = some 2 ∧
     (orderedRun.subs 0).evs.map (·.new) = [some 1, some 2] ∧ (orderedRun.subs 0).view 0 = some 2 ∧
     (orderedRun.subs 1).live = true ∧ (orderedRun.subs 1).view 0 = some 2 := by
+  decide
+
+/-- writer 0 sets id 0, writer 1 sets id 1 -/
+def twoIds : Nat → List (WOp Int) := fun t =>
+  if t = 0 then [.upd 0 (fun _ => some 1)] else if t = 1 then [.upd 1 (fun _ => some 2)] else []
+
+/-- the schedule of `C03_converges_fails` (W1's publication overtakes W0's) with the writers on DIFFERENT ids: the
+run is `ordered` (only publications of one id must keep their commit order) and both subscribers converge -/
+example :
+    ordered (initCfg (fun _ => none) twoIds (fun s => plain (s == 1)))
+      [.sub 0, .sub 1, .commit 0, .commit 1, .snap 1, .deliver 1, .recv 0, .deliver 1, .snap 0, .deliver 0, .recv 0,
+       .deliver 0, .recv 1, .recv 1] = true ∧
+    let c := run (initCfg (fun _ => none) twoIds (fun s => plain (s == 1)))
+      [.sub 0, .sub 1, .commit 0, .commit 1, .snap 1, .deliver 1, .recv 0, .deliver 1, .snap 0, .deliver 0, .recv 0,
+       .deliver 0, .recv 1, .recv 1]
+    c.quiescent = true ∧ (c.subs 0).evs.map (·.id) = [1, 0] ∧ (c.subs 0).view 0 = some 1 ∧ (c.subs 0).view 1 = some 2 ∧
+    (c.subs 1).pending = [] ∧ (c.subs 1).view 0 = some 1 ∧ (c.subs 1).view 1 = some 2 := by
   decide
 
 /-- one writer, three writes of id 0 and a delete of id 1 -/
@@ -231,7 +351,7 @@ def slowSched : List Act :=
    .commit 0, .deliver 0, .deliver 0, .recv 1,
    .commit 0, .snap 0, .deliver 0, .deliver 0, .recv 1, .recv 0]
 
-def slowOpts : Nat → SubOpts Int := fun s => if s = 0 then plain true else ⟨false, false, fun _ => 0⟩
+def slowOpts : Nat → SubOpts Int := fun s => if s = 0 then plain true else ⟨false, false, fun _ => 0, none⟩
 
 def slowRun : Cfg Int := run (initCfg (fun _ => none) slowProg slowOpts) slowSched
 
@@ -240,6 +360,52 @@ example :
     slowRun.quiescent = true ∧ (slowRun.subs 0).evs.length = 1 ∧ (slowRun.subs 0).got = [0, 1, 2, 3] ∧
     (slowRun.subs 0).view 0 = some 4 ∧ (slowRun.subs 1).evs.length = 4 ∧ (slowRun.subs 1).view 0 = some 0 ∧
     slowRun.store 0 = some 4 := by
+  decide
+
+/-! ### Non-vacuity of the include × mask theorems (pairs of integers; mask hides the field the include reads) -/
+
+/-- include = first field even; the read mask keeps only the second field -/
+def evenFirst : Option (Nat → Int × Int → Bool) := some (fun _ v => v.1 % 2 == 0)
+def onlySecond : Int × Int → Int × Int := fun v => (0, v.2)
+
+def inclProg : Nat → List (WOp (Int × Int)) := fun t =>
+  if t = 0 then [.upd 0 (fun _ => some (2, 7)), .upd 1 (fun _ => some (3, 8)), .upd 0 (fun _ => some (5, 9)),
+                 .upd 1 (fun _ => some (4, 6)), .upd 2 (fun _ => some (6, 1)), .del 2 (fun _ => true)] else []
+
+def inclOpts : Nat → SubOpts (Int × Int) := fun s =>
+  if s = 0 then ⟨false, false, onlySecond, evenFirst⟩ else ⟨false, true, onlySecond, evenFirst⟩
+
+/-- a backpressured consumer receiving at once and a lossy one draining at the end -/
+def inclSched : List Act :=
+  [.sub 0, .sub 1,
+   .commit 0, .snap 0, .deliver 0, .recv 0, .deliver 0, .commit 0, .snap 0, .deliver 0, .recv 0, .deliver 0,
+   .commit 0, .snap 0, .deliver 0, .recv 0, .deliver 0, .commit 0, .snap 0, .deliver 0, .recv 0, .deliver 0,
+   .commit 0, .snap 0, .deliver 0, .recv 0, .deliver 0, .commit 0, .deliver 0, .recv 0, .deliver 0,
+   .recv 1, .recv 1, .recv 1]
+
+def inclRun : Cfg (Int × Int) := run (initCfg (fun i => if i = 0 then some (1, 1) else none) inclProg inclOpts) inclSched
+
+/-- id 0: seeded excluded, ADDed by an update, REMOVEd by the next; id 1: a dropped ADD, then ADD by update; id 2: ADD
+and REMOVE (cancelled in the lossy stage).  Ordered, quiescent, both consumers hold {1 ↦ (0,6)}: the masked image of
+the included store items, although the mask hides the field the include function reads. -/
+example :
+    ordered (initCfg (fun i => if i = 0 then some (1, 1) else none) inclProg inclOpts) inclSched = true ∧
+    inclRun.quiescent = true ∧ (inclRun.subs 1).pending = [] ∧
+    inclRun.store 0 = some (5, 9) ∧ inclRun.store 1 = some (4, 6) ∧ inclRun.store 2 = none ∧
+    (inclRun.subs 0).obsView 0 = none ∧ (inclRun.subs 0).obsView 1 = some (0, 6) ∧ (inclRun.subs 0).obsView 2 = none ∧
+    (inclRun.subs 1).obsView 0 = none ∧ (inclRun.subs 1).obsView 1 = some (0, 6) ∧
+    (inclRun.subs 0).obs.map (fun e => (e.id, e.new)) =
+      [(0, some (0, 7)), (0, none), (1, some (0, 6)), (2, some (0, 1)), (2, none)] ∧
+    (inclRun.subs 0).pullID 1 = [(0, 6)] ∧ (inclRun.subs 0).pullIDEnded 1 = false ∧
+    (inclRun.subs 0).pullID 0 = [(0, 7)] ∧ (inclRun.subs 0).pullIDEnded 0 = true := by
+  decide
+
+/-- the order of the two steps matters: judging the MASKED change (mask first, then include) forwards an update of an
+item that the include function, reading the stored values, keeps excluded -/
+example :
+    let e : Event (Int × Int) := ⟨0, some (1, 1), some (3, 2), false, 0⟩
+    fwdEv evenFirst onlySecond e = none ∧
+    (fwdEv evenFirst id { e with old := e.old.map onlySecond, new := e.new.map onlySecond }).isSome = true := by
   decide
 
 /-- a Delete publishes under the lock: a commit attempted meanwhile is disabled (the step is a no-op) -/
